@@ -691,3 +691,54 @@ broadcast group vp_text_lemmas {
     lemma_spaces,
     lemma_stack_push,
 }
+
+// =================================================================================================
+// C13: what the source-map consumer may rely on (lemmas over the contracts only)
+// =================================================================================================
+
+/// a later offset has a lexicographically later (line, column)
+proof fn lemma_line_col_monotone(out: Seq<char>, a: int, b: int)
+    requires 0 <= a <= b <= out.len(),
+    ensures
+        count_nl(out.take(a)) < count_nl(out.take(b)) || (count_nl(out.take(a)) == count_nl(out.take(b)) && col_of(out.take(a)) <= col_of(out.take(b))),
+    decreases b - a,
+{
+    if a < b {
+        lemma_line_col_monotone(out, a, b - 1);
+        assert(out.take(b).drop_last() =~= out.take(b - 1));
+    }
+}
+
+spec fn lex_le(l1: u32, c1: u32, l2: u32, c2: u32) -> bool {
+    l1 < l2 || (l1 == l2 && c1 <= c2)
+}
+
+/// C13: every entry has all four coordinates >= 1 (so `x - 1` in SourceMap::add cannot underflow) and the entries
+/// are ordered by output position
+pub closed spec fn anchors_1based_sorted(anchors: Seq<RenderedAnchor>) -> bool {
+    &&& forall|i: int| 0 <= i < anchors.len() ==> {
+            let a = #[trigger] anchors[i];
+            a.dst_line >= 1 && a.dst_column >= 1 && a.src_line >= 1 && a.src_column >= 1
+        }
+    &&& forall|i: int, j: int| 0 <= i <= j < anchors.len() ==> lex_le(anchors[i].dst_line, anchors[i].dst_column, anchors[j].dst_line, anchors[j].dst_column)
+}
+
+proof fn lemma_rendered_sorted(r: Rendered, o: RenderOpts)
+    requires rendered_ok(r, o),
+    ensures anchors_1based_sorted(r.anchors@),
+{
+    let (raw, offs) = choose|raw: Seq<char>, offs: Seq<nat>| #![trigger vp_witness(raw, offs)]
+        vp_witness(raw, offs) && anchors_hold(raw, offs, r.anchors@) && r.text@ == (if o.strip_trailing_whitespace { strip_tw(raw, o.newline@) } else { raw });
+    let an = r.anchors@;
+    assert forall|i: int, j: int| 0 <= i <= j < an.len() implies lex_le(an[i].dst_line, an[i].dst_column, an[j].dst_line, an[j].dst_column) by {
+        assert(anchor_ok(raw, offs[i], an[i]));
+        assert(anchor_ok(raw, offs[j], an[j]));
+        lemma_line_col_monotone(raw, offs[i] as int, offs[j] as int);
+    }
+    assert forall|i: int| 0 <= i < an.len() implies ({
+        let a = #[trigger] an[i];
+        a.dst_line >= 1 && a.dst_column >= 1 && a.src_line >= 1 && a.src_column >= 1
+    }) by {
+        assert(anchor_ok(raw, offs[i], an[i]));
+    }
+}
